@@ -417,4 +417,23 @@ BINDINGS = [
          mutations={"warp_starts.append()": ("warp_starts", "(warp_starts ++ [{0}])", False),
                     "warp_ends.append()": ("warp_ends", "(warp_ends ++ [{0}])", False),
                     "warp_ends[]=": ("warp_ends", "(warp_ends.dropLast ++ [{rawvalue}])")}),
+
+    # ---- the attribute/key layer (C18): item_property's closure, and the SM chart's guarded dictionary access
+    dict(file="simfile/_private/property.py", qual="item_property._name_or_alias", module="Views", lean="nameOrAlias",
+         state_params=[("name", "Str"), ("alias", "Option Str")], params=[("self", "Dict")], ret="Str", model="nameOrAlias",
+         theorem="nameOrAlias_eq", properties=["C18", "C16", "C15"], imports=["Simfile.Model.Views", "Simfile.Model.Convert"],
+         names={"name": "name"}, exprs={}, contains={"self": "(Dict.contains self {0} = true)"},
+         # `alias` is None or a non-empty constant of the class tables (aliases_nonempty is decided over the generated tables)
+         truthy={"alias": "(alias ≠ none)"}, optional_exprs={}, calls={},
+         optional_as_str=("alias",)),
+    dict(file="simfile/sm.py", qual="SMChart.__setitem__", module="Views", lean="smChartSetItem", ret_mode="except",
+         params=[("self", "Dict"), ("property", "Str"), ("value", "Str")], ret="Except CErr Dict", model="setItem true",
+         theorem="smChartSetItem_eq", properties=["C18", "C17"], imports=["Simfile.Model.Views", "Simfile.Model.Convert"],
+         names={"SM_CHART_PROPERTIES": "T.smChartProperties"}, raises={"KeyError": "CErr.keyError"},
+         exprs={"super().__setitem__(property, value)": "(Dict.set self property (some value))"}),
+    dict(file="simfile/sm.py", qual="SMChart.__getitem__", module="Views", lean="smChartGetItem", ret_mode="except",
+         params=[("self", "Dict"), ("property", "Str")], ret="Except CErr (Option Str)", model="vstep .smChart · (.getKey ·)",
+         theorem="smChartGetItem_eq", properties=["C18"], imports=["Simfile.Model.Views", "Simfile.Model.Convert"],
+         names={"SM_CHART_PROPERTIES": "T.smChartProperties"}, raises={"KeyError": "CErr.keyError"},
+         calls={"getattr": "(attrGet Kind.smChart {0} {1})"}, methods={"lower": "(lower {self})"}),
 ]
